@@ -156,6 +156,20 @@ def rule_nopath(ctx: Ctx) -> RuleResult:
     else:
         res.violation([f.qualname, "shape"], "PathSid.path is not `dict_to_path(self._fields, self._type, config=config)` guarded against "
                                              "SpilException with a None fallback", f.relpath, f.node.lineno)
+    # the answer is that call's result or None, nothing else (no path borrowed from another Sid when this one has none)
+    flow = flow_of(f.node)
+    for r in _rets(f):
+        v = r.value
+        if v is None or (isinstance(v, ast.Constant) and v.value is None) or v is c:
+            continue
+        at = flow.node_of(r)
+        ds = flow.defs_reaching(at.id, v.id) if isinstance(v, ast.Name) and at is not None else []
+        foreign = [d for d in ds if not (d.kind == "assign" and (d.value is c or (isinstance(d.value, ast.Constant) and d.value.value is None)))]
+        if not ds or foreign:
+            what = norm(foreign[0].value)[:60] if foreign and foreign[0].value is not None else norm(v)[:60]
+            res.violation([f.qualname, "foreign answer"], f"PathSid.path can answer `{what}`, which is neither dict_to_path(own fields, own type, config) nor "
+                                                          f"None: a Sid whose type has no path template gets a path, and that path belongs to another Sid",
+                          f.relpath, r.lineno)
     d2p = ctx.p.function("spil.sid.pathops.fs_resolver.dict_to_path")
     # every explicit raise in dict_to_path is a SpilException (so path() turns it into None)
     bad = [rp for rp, node in ctx.ef.points(d2p) if rp.kind == "raise" and rp.exc != "SpilException"]
